@@ -10,8 +10,6 @@ if not ver["ok"]:
     print("NOT KEPT (verification failed):", json.dumps(ver, indent=1)); sys.exit(1)
 patch = os.path.join(src, "patch.diff")
 ap = subprocess.run(["git", "-C", "/repo", "apply", patch], capture_output=True, text=True)
-if ap.returncode != 0:
-    ap = subprocess.run(["git", "-C", "/repo", "apply", "--3way", patch], capture_output=True, text=True)
 applied = ap.returncode == 0
 caught = []
 out = ""
@@ -43,6 +41,8 @@ meta = {
         "tests_passing_patched": ver["tests_passed_patched"],
         "newly_failing_tests": ver["newly_failing"],
     },
+    "round": os.environ.get("SEED_ROUND", ""),
+    "first_shot_detected": os.environ.get("FIRST_SHOT", ""),
     "check_against_patch": {
         "applied_to_repo_cleanly": applied,
         "quick_check_exit": rc,
